@@ -67,8 +67,9 @@ def judge_receiver(ctx, rec, side, case):
     for inst in insts:
         if not inst.established:
             continue
-        if any(e["t"] in (cm.EOF, cm.CLOSE) for e in inst.ev):
-            continue  # after EOF/CLOSE no more data can come; credit is moot
+        if any((e["d"] == "in" and e["t"] in (cm.EOF, cm.CLOSE)) or (e["d"] == "out" and e["t"] == cm.CLOSE) for e in inst.ev):
+            continue  # after the peer's EOF/CLOSE (or our CLOSE) no more data can come; credit is moot
+        # (our own EOF only ends *our* direction: the peer may go on sending and must be credited)
         rcv, disc, adj, cons = receiver_state(inst)
         if rcv == 0:
             continue
@@ -106,7 +107,7 @@ def gen_pair(rng, quick):
         total = min(total, 40_000)
     return dict(kind="pair", window=w, packet=pkt, total=total, err=int(total * frac), read=read,
                 direction=rng.choice(("c2s", "s2c")), latency=rng.choice((0, 0, 0.002)),
-                api=rng.choice(("sendall", "send")))
+                api=rng.choice(("sendall", "send")), reader_half_closed=rng.random() < 0.35)
 
 
 def run_pair(ctx, case, rng):
@@ -125,6 +126,10 @@ def run_pair(ctx, case, rng):
             ctx.count("channels_with_local_id_ne_remote_id")
         w, r = (c, s) if d == "c2s" else (s, c)
         rside = "s" if d == "c2s" else "c"
+        if case.get("reader_half_closed"):
+            # the receiving application has ended its *own* direction (EOF sent); it still reads what the peer sends
+            r.shutdown_write()
+            ctx.count("transfers_with_reader_half_closed")
         p.link.set_latency(case["latency"])
         n_err = case["err"]
         n_out = case["total"] - n_err
@@ -201,6 +206,85 @@ def run_pair(ctx, case, rng):
         judge_receiver(ctx, p.rec, rside, case)
         ctx.count("adjusts_seen", len(p.msgs(rside, "out", (cm.ADJUST,))))
         ctx.count("data_msgs_seen", len(p.msgs(rside, "in", (cm.DATA, cm.EXT))))
+    finally:
+        p.close()
+
+
+# ---------------------------------------------------------------------------
+def gen_multi(rng, idx):
+    return dict(kind="parked-writers-one-adjust", writers=2 + idx % 3, window=rng.choice((32768, 32769, 65536)),
+                direction="cs"[idx // 3 % 2], chunk=rng.choice((1, 100, 3000)), stderr_mix=rng.random() < 0.5)
+
+
+def run_multi(ctx, case, rng):
+    """N threads write to the same channel and all park on the exhausted window; the peer application then takes
+    the whole window in one read, i.e. one WINDOW_ADJUST large enough for all of them.  Every parked writer must
+    make progress: at quiescence nobody may still be parked while out_window_size > 0."""
+    w = case["window"]
+    p = pair.Pair(rng=rng, server_kw=dict(default_window_size=w))
+    cm.watch(p.tc, p.rec, "c")
+    cm.watch(p.ts, p.rec, "s")
+    try:
+        if not p.start() or not p.auth():
+            ctx.inconclusive("handshake failed")
+            return
+        cm.diverge_ids(p, rng)
+        c, s = p.session(window_size=w)
+        x, y = (c, s) if case["direction"] == "c" else (s, c)
+        x.settimeout(60)
+        cm.send_all(x, bytes(w), random.Random(1))
+        x.settimeout(None)
+        if x.out_window_size != 0 or not pair.wait_for(lambda: len(y.in_buffer) == w, 20, 0.002):
+            ctx.inconclusive("could not exhaust the window")
+            return
+        res = {}
+
+        def writer(i):
+            try:
+                fn = x.send_stderr if (case["stderr_mix"] and i % 2) else x.send
+                res[i] = fn(b"\x07" * case["chunk"])
+            except Exception as e:
+                res[i] = repr(e)
+
+        ths = [threading.Thread(target=writer, args=(i,), daemon=True, name="w%d" % i) for i in range(case["writers"])]
+        for t in ths:
+            t.start()
+        parked = pair.wait_for(lambda: all("_wait_for_send_window" in " ".join(v) for v in cm.stacks_of(ths).values()), 30, 0.002)
+        if not parked:
+            ctx.inconclusive("writers did not all park on the window")
+            return
+        ctx.count("writers_parked_together", len(ths))
+        n_adj = len(p.msgs("c" if x is c else "s", "in", (cm.ADJUST,)))
+        got = y.recv(w)  # the whole window in one read -> one adjustment of w bytes
+        xs = "c" if x is c else "s"
+        pair.wait_for(lambda: len(p.msgs(xs, "in", (cm.ADJUST,))) > n_adj, 20, 0.002)
+        adj = [cm.parse(e["payload"])["adj"] for e in p.msgs(xs, "in", (cm.ADJUST,))[n_adj:]]
+        if len(got) != w or not adj or adj[0] < case["chunk"] * len(ths):
+            ctx.inconclusive("the single large adjust did not happen (%d read, adjusts %s)" % (len(got), adj))
+            return
+        ctx.count("single_large_adjusts")
+        end = time.monotonic() + 120
+        SIG = "writer still parked on the send window although the window was re-opened"
+        while any(t.is_alive() for t in ths) and time.monotonic() < end:
+            time.sleep(0.005)
+            if not p.link.quiescent(0.5):
+                continue
+            alive = [t for t in ths if t.is_alive()]
+            if not alive:
+                break
+            ok, st = cm.blocked_at_quiescence(alive, p.link, 1.0 if SIG in ctx.violations else ctx.pick(10, 20))
+            if ok and x.out_window_size > 0:
+                ctx.violation(SIG, "%d of %d writers are parked in _wait_for_send_window with out_window_size=%d and "
+                              "nothing in flight" % (len(alive), len(ths), x.out_window_size),
+                              dict(case=case, stacks=st, results=res))
+                return
+        if any(t.is_alive() for t in ths):
+            ctx.inconclusive("parked writers neither finished nor were provably stuck")
+            return
+        if all(res.get(i) == case["chunk"] for i in range(len(ths))):
+            ctx.count("parked_writers_all_progressed")
+        else:
+            ctx.inconclusive("parked writers ended unexpectedly: %s" % res)
     finally:
         p.close()
 
@@ -324,6 +408,12 @@ def run(ctx):
         ctx.guard(run_ext, ctx, case, rng)
         ctx.case(("ext", sorted(case.items(), key=str)), sample=case if i < 2 else None,
                  nontrivial=ctx.counters.get("quiescence_credit_checks", 0) > before)
+    for i in range(ctx.pick(3, 20)):
+        case = gen_multi(rng, i * ctx.nshards + ctx.shard)
+        before = ctx.counters.get("parked_writers_all_progressed", 0)
+        ctx.guard(run_multi, ctx, case, rng)
+        ctx.case(("multi", sorted(case.items(), key=str)), sample=case if i < 1 else None,
+                 nontrivial=ctx.counters.get("parked_writers_all_progressed", 0) > before)
     for i in range(n_pair):
         if time.time() > dl:
             break
@@ -337,3 +427,7 @@ def run(ctx):
     ctx.require("ext_cases", 20)
     ctx.require("discarded_bytes_seen", 10000)
     ctx.require("adjusts_seen", 100)
+    ctx.require("writers_parked_together", 40)
+    ctx.require("single_large_adjusts", 16)
+    ctx.require("parked_writers_all_progressed", 16)
+    ctx.require("transfers_with_reader_half_closed", 6)
